@@ -21,6 +21,7 @@ type compiler struct {
 	builtinScope  *scopeinfo
 	scopes        []*scopeinfo
 	scopecnt      int
+	globalcnt     int
 	regexpCache   sync.Map
 }
 
@@ -89,6 +90,7 @@ func Compile(q *Query, options ...CompilerOption) (*Code, error) {
 		c.appendCodeInfo(name)
 		c.append(&code{op: opstore, v: c.pushVariable(name)})
 	}
+	c.globalcnt = len(scope.variables)
 	if c.moduleLoader != nil {
 		if moduleLoader, ok := c.moduleLoader.(interface {
 			LoadInitModules() ([]*Query, error)
@@ -159,9 +161,9 @@ func (c *compiler) compileImport(i *Import) error {
 			return fmt.Errorf("module not found: %q", path)
 		}
 		c.append(&code{op: oppush, v: vals})
-		c.append(&code{op: opstore, v: c.pushVariable(alias)})
+		c.append(&code{op: opstore, v: c.createVariable(alias)})
 		c.append(&code{op: oppush, v: vals})
-		c.append(&code{op: opstore, v: c.pushVariable(alias + "::" + alias[1:])})
+		c.append(&code{op: opstore, v: c.createVariable(alias + "::" + alias[1:])})
 		return nil
 	}
 	var q *Query
@@ -194,11 +196,18 @@ func (c *compiler) compileModule(q *Query, alias string) error {
 		scope.variables = scope.variables[:l]
 	}(len(scope.variables))
 	if alias != "" {
-		defer func(l int) {
-			for _, f := range scope.funcs[l:] {
+		// An imported module should not see the functions and the imported
+		// data of the importer, so compile it only with the global variables.
+		funcs, variables := scope.funcs, scope.variables
+		n := min(c.globalcnt, len(variables))
+		scope.funcs, scope.variables = nil, variables[:n:n]
+		defer func() {
+			for _, f := range scope.funcs {
 				f.name = alias + "::" + f.name
 			}
-		}(len(scope.funcs))
+			scope.funcs = append(funcs, scope.funcs...)
+			scope.variables = variables
+		}()
 	}
 	for _, i := range q.Imports {
 		if err := c.compileImport(i); err != nil {
